@@ -233,8 +233,8 @@ const FIELD_ALPHA: [(&str, &str); 23] = [
     ("skip", "word"), ("skip", "false"), ("skip", "str"), ("map", "str"), ("and_then", "path"), ("map", "closure"), ("multiple", "word"), ("multiple", "false"),
     ("flatten", "word"), ("flatten", "true"), ("bogus", "word"), ("@bare", ""), ("@nv", ""), ("@lit", ""), ("@junk", ""),
 ];
-const VARIANT_ALPHA: [(&str, &str); 11] = [
-    ("rename", "str"), ("rename", "true"), ("skip", "word"), ("word", "word"), ("word", "false"), ("word", "str"), ("bogus", "str"), ("@bare", ""), ("@nv", ""), ("@lit", ""), ("@junk", ""),
+const VARIANT_ALPHA: [(&str, &str); 12] = [
+    ("rename", "str"), ("rename", "true"), ("skip", "word"), ("skip", "false"), ("word", "word"), ("word", "false"), ("word", "str"), ("bogus", "str"), ("@bare", ""), ("@nv", ""), ("@lit", ""), ("@junk", ""),
 ];
 const CONT_ALPHA: [(&str, &str); 25] = [
     ("default", "word"), ("default", "words"), ("rename_all", "rule"), ("rename_all", "str"), ("map", "str"), ("and_then", "str"), ("allow_unknown_fields", "word"),
